@@ -113,10 +113,14 @@ def bfs(harness_cls, hargs=(), *, depth, procs=16, max_states=None, time_budget=
             if time_budget is not None and time.time() - t0 > time_budget:
                 res.capped = True
                 break
-            n = max(1, min(len(frontier), procs * 4))
+            n = max(1, min(len(frontier), procs * 16))
             chunks = [frontier[i::n] for i in range(n)]
             nxt = []
+            aborted = False
             for out, ntrans, cov in pool.imap_unordered(_expand, chunks):
+                if time_budget is not None and time.time() - t0 > time_budget * 1.5:
+                    # a level that runs far past the budget is abandoned: what it found so far is kept, the level does not count
+                    aborted = True
                 res.transitions += ntrans
                 for k, v in cov.items():
                     res.coverage[k] = max(res.coverage.get(k, 0), v)
@@ -131,6 +135,13 @@ def bfs(harness_cls, hargs=(), *, depth, procs=16, max_states=None, time_budget=
                             res.samples.append(hist)
                     if graph is not None:
                         graph.append((seen[c0], hist[-1], seen[c]))
+                if aborted:
+                    break
+            if aborted:
+                res.capped = True
+                res.partial_level = d + 1
+                pool.terminate()
+                break
             d += 1
             # deterministic order regardless of worker scheduling
             nxt.sort(key=lambda x: repr(x[1]))
